@@ -144,6 +144,14 @@ CHECKS["C11"] = (
     "DESIGN.md section 4, C11",
 )
 
+CHECKS["C09"] = (
+    "E4-config-enumerator",
+    "exhaustive enumeration of class hierarchies x keyword sets against an ownership/default-resolution reference evaluated on the declared hierarchy",
+    "Every hierarchy of the grammar (6 shapes: single class, spec subclass that re-declares / re-defaults / adds attributes, plain subclass re-defaulting, spec subclass + plain subclass, multiple inheritance of two spec parents, two spec subclass levels; x generated / hand-written parent constructor of the documented shape x key none / without default / with default x overflow attribute x init=False attribute x default factories; 85 quick / ~150 thorough after pruning undocumented combinations), every final class, every keyword set (all subsets with conforming values, each attribute non-conforming alone and with all others conforming, unknown names) and the key passed positionally: the constructed instance's managed attributes, the overflow dict, the number of hand-written constructor calls, and __post_init__ (exactly once, after all attributes are set) are compared with refinit; expected TypeError cases must raise.",
+    "Trusts refinit in props/c09.py (never reads library metadata); hand-written constructors have the documented shape and are judged only as parent constructors.",
+    "DESIGN.md section 4, C09",
+)
+
 ENGINES = [
     {"name": "E1-explicit-state", "path": "mc/common.py, props/*.py (explore)", "serves_properties": [],
      "kind_free_text": "breadth-first explicit-state search over the real transition function; a state is the shortest operation history that reaches it, rebuilt by replay; canonical-form deduplication; lock-step reference model"},
